@@ -5,16 +5,17 @@
 #   docs/tie_tests/T1/run_all.sh [name-prefix ...]      (default: all diffs)
 HERE="$(cd "$(dirname "$0")" && pwd)"
 ROOT="$(cd "$HERE/../../.." && pwd)"
-W=/tmp/sc_T1_tie
-O=/tmp/sc_T1_out
+W=/tmp/sc_T1r_tie
+O=/tmp/sc_T1r_out
 cd "$ROOT"
 sel="$*"
 for d in "$HERE"/*.diff; do
   n=$(basename "$d" .diff)
   if [ -n "$sel" ]; then ok=0; for p in $sel; do case "$n" in "$p"*) ok=1;; esac; done; [ $ok = 1 ] || continue; fi
   git -C /repo worktree add --detach "$W" HEAD >/dev/null 2>&1
-  # the source has CRLF line ends, the diffs here are stored with LF: strip, patch, restore
-  (cd "$W" && sed -i 's/\r$//' lib_guesser/pcfg_grammar.py && patch -p1 -s < "$d" && sed -i 's/$/\r/' lib_guesser/pcfg_grammar.py) \
+  # the sources have CRLF line ends, the diffs here are stored with LF: strip the CRs of the files the diff names, patch, put them back
+  fs=$(sed -n 's|^+++ b/||p' "$d")
+  (cd "$W" && sed -i 's/\r$//' $fs && patch -p1 -s < "$d" && sed -i 's/$/\r/' $fs) \
     || { echo "$n: patch failed"; git -C /repo worktree remove --force "$W"; continue; }
   for c in C04 C09 C17; do
     rm -rf "$O"
